@@ -414,6 +414,9 @@ func (c *Ctx) walkPath(cur Value, T types.Type, index []int) (Value, types.Type)
 			T = p.Elem()
 		}
 		owner := typeName(T)
+		if n := namedOf(T); n != nil && n.Obj().Pkg() != nil && c.x.w.Pkgs[n.Obj().Pkg().Path()] == nil {
+			owner = n.Obj().Pkg().Name() + "." + owner // external struct: qualified heap key
+		}
 		s, ok := types.Unalias(T).Underlying().(*types.Struct)
 		if !ok {
 			panic(engineErr("selector path through non-struct %s", T))
